@@ -7,17 +7,28 @@
 (*              clear and fed the same frames since                        *)
 (*   sinc_conv  the real Converter at ratio 1 over an instrumented source  *)
 (*   sinc_lin   four instances fed a, b, a+b, 2^k a, interpolated at j/16  *)
-(* Frame formats f64, f32, i16, i32 (mono / stereo); the i32 frames carry  *)
-(* values with more than 24 significant bits, up to full scale on the grid.*)
+(*              after every push (`step`) and, without pushing, at any     *)
+(*              further position (`probe`)                                 *)
+(*   sinc_clin  four real Converters at one ratio num/den (any ratio) over *)
+(*              the sources a, b, a+b, 2^k a                               *)
+(* Frame formats f64, f32, i8, i16, i32, u8, u16, u32 (mono / stereo); the *)
+(* 32-bit frames carry values with more than 24 significant bits, up to    *)
+(* full scale on the grid.  Integer samples are read as AMPLITUDES in LSB  *)
+(* (distance from the format's equilibrium).                               *)
 (* Accepted iff (layer 1 of Sinc.tla, tolerances of the property)          *)
-(*   on the grid (x = 0; every converter output) the output is the frame   *)
-(*   pushed depth pushes ago, silence before: |out - it| <= 1e-12 * peak   *)
-(*   (floats) / <= 2 depth LSB (integers, each tap truncates);             *)
+(*   on the grid (x = 0; every ratio-1 converter output) the output is the *)
+(*   frame pushed depth pushes ago, silence before:                        *)
+(*   |out - it| <= 1e-12 * peak, whatever the format and the depth -- for  *)
+(*   the integer formats up to 32 bits that is equality (1e-12 * peak is   *)
+(*   less than one LSB);                                                   *)
 (*   converter: k pulls before the k-th output (k = 0, 1, ...);            *)
 (*   every output finite; after clear = a fresh interpolator, bit for bit; *)
 (*   constant input, buffer primed, depth >= 4: within 1 % (+ 2 depth LSB);*)
 (*   scaling by 2^k exact for floats (2 depth max(1, 2^k) LSB integers),   *)
-(*   superposition within 4 depth eps peak (2 depth LSB integers).         *)
+(*   superposition within 4 depth eps peak (2 depth LSB integers) -- at    *)
+(*   every position and whatever the inputs are (runs of exact zeros,      *)
+(*   constants, extremes, b = -a: the output is a linear function of the   *)
+(*   buffered frames, not of anything else the history may have been).     *)
 (***************************************************************************)
 EXTENDS Sinc, SampleFormats, TLC, Json, IOUtils
 
@@ -37,7 +48,9 @@ Flt == IsFloat(cf.fmt)
 FF == FmtOf(cf.fmt)
 SampOK(x) == IF Flt THEN IsFields(x) /\ FIsFinite(FF, x)                \* finite
              ELSE IsSJson(x) /\ InRange(cf.fmt, SFromJson(x))
-VFmt(fmt, x) == IF IsFloat(fmt) THEN Dec(FmtOf(fmt), x) ELSE DFromS(SFromJson(x))  \* exact value (integers: in LSB)
+IntFmts == {"i8", "i16", "i32", "u8", "u16", "u32"}
+\* exact value (integers: the amplitude, i.e. the distance from equilibrium, in LSB)
+VFmt(fmt, x) == IF IsFloat(fmt) THEN Dec(FmtOf(fmt), x) ELSE DFromS(Amp(fmt, SFromJson(x)))
 V(x) == VFmt(cf.fmt, x)
 FrameOK(f) == Len(f) = cf.ch /\ \A c \in 1..cf.ch : SampOK(f[c])
 VF(f) == [c \in 1..cf.ch |-> V(f[c])]
@@ -46,9 +59,9 @@ MaxAbs(p, vf) == LET F[c \in 0..Len(vf)] == IF c = 0 THEN p ELSE DMax(F[c - 1], 
 
 Depth == cf.depth
 Lsb(k) == DFromInt(k)
-\* on the grid: |out - want| <= 1e-12 peak (floats) / 2 depth LSB (integers)
-GridTol(o, w, pk) == LET d == DAbs(DSub(o, w)) IN
-                     IF Flt THEN DLe(DMul(d, E12), pk) ELSE DLe(d, Lsb(2 * Depth))
+\* on the grid: |out - want| <= 1e-12 peak -- the property's clause as it stands, for every format (integers: out, want
+\* and peak are all in LSB, and 1e-12 peak < 1 LSB: equality) and every depth
+GridTol(o, w, pk) == LET d == DAbs(DSub(o, w)) IN DLe(DMul(d, E12), pk)
 GridFrameOK(f, want, pk) == \A c \in 1..cf.ch : GridTol(V(f[c]), want[c], pk)
 
 \* the last 2 depth pushed frames are one constant frame
@@ -58,17 +71,33 @@ ConstOK(f) == \A c \in 1..cf.ch :
       d == DAbs(DSub(V(f[c]), cv))
   IN DLe(DMul(DFromInt(100), d), DAdd(DAbs(cv), IF Flt THEN DZero ELSE Lsb(200 * Depth)))
 
-SrcPeak(c) ==
-  LET one(p, f) == LET G[j \in 0..Len(f)] == IF j = 0 THEN p ELSE DMax(G[j - 1], DAbs(VFmt(c.fmt, f[j]))) IN G[Len(f)]
-      F[i \in 0..Len(c.src)] == IF i = 0 THEN DZero ELSE one(F[i - 1], c.src[i])
-  IN F[Len(c.src)]
+SeqPeak(fmt, src, p0) ==
+  LET one(p, f) == LET G[j \in 0..Len(f)] == IF j = 0 THEN p ELSE DMax(G[j - 1], DAbs(VFmt(fmt, f[j]))) IN G[Len(f)]
+      F[i \in 0..Len(src)] == IF i = 0 THEN p0 ELSE one(F[i - 1], src[i])
+  IN F[Len(src)]
+SrcPeak(c) == SeqPeak(c.fmt, c.src, DZero)
 
 ---------------------------------------------------------------------------
+\* a sample / frame of an explicitly given format (the reset line is judged before cf is set)
+SampOKF(fmt, x) == IF IsFloat(fmt) THEN IsFields(x) /\ FIsFinite(FmtOf(fmt), x)
+                   ELSE IsSJson(x) /\ InRange(fmt, SFromJson(x))
+\* sinc_clin: the four sources are finite frames of the format, and the third and fourth really are a + b and 2^k a
+ClinSrcOK(c) ==
+  /\ c.num >= 1 /\ c.den >= 1 /\ c.ctor \in {"scale", "sample", "hz"}
+  /\ Len(c.b) = Len(c.a) /\ Len(c.ab) = Len(c.a) /\ Len(c.ka) = Len(c.a)
+  /\ \A i \in 1..Len(c.a) :
+       /\ Len(c.a[i]) = c.ch /\ Len(c.b[i]) = c.ch /\ Len(c.ab[i]) = c.ch /\ Len(c.ka[i]) = c.ch
+       /\ \A ch \in 1..c.ch :
+            /\ SampOKF(c.fmt, c.a[i][ch]) /\ SampOKF(c.fmt, c.b[i][ch])
+            /\ SampOKF(c.fmt, c.ab[i][ch]) /\ SampOKF(c.fmt, c.ka[i][ch])
+            /\ DEq(VFmt(c.fmt, c.ab[i][ch]), DAdd(VFmt(c.fmt, c.a[i][ch]), VFmt(c.fmt, c.b[i][ch])))
+            /\ DEq(VFmt(c.fmt, c.ka[i][ch]), DScale2(VFmt(c.fmt, c.a[i][ch]), c.k))
 AcceptReset ==
   LET c == Ev.cfg IN
-  /\ Ev.comp \in {"sinc", "sinc_conv", "sinc_lin"} /\ Ev.r.k = "unit" /\ Ev.o.ok
-  /\ c.depth >= 1 /\ c.fmt \in {"f64", "f32", "i16", "i32"} /\ c.ch \in 1..2
-  /\ (Ev.comp = "sinc_lin" => c.k \in (-8)..8)
+  /\ Ev.comp \in {"sinc", "sinc_conv", "sinc_lin", "sinc_clin"} /\ Ev.r.k = "unit" /\ Ev.o.ok
+  /\ c.depth >= 1 /\ c.fmt \in ({"f64", "f32"} \cup IntFmts) /\ c.ch \in 1..2
+  /\ (Ev.comp \in {"sinc_lin", "sinc_clin"} => c.k \in (-8)..8)
+  /\ (Ev.comp = "sinc_clin" => ClinSrcOK(c))
 
 AcceptPush == /\ FrameOK(Ev.a.v) /\ Ev.r.k = "unit"
 AcceptClear == Ev.r.k = "unit"
@@ -94,25 +123,40 @@ AcceptTail ==
   /\ Ev.o.pulls = ConvPulled(n + Ev.a.m - 1)
 
 Eps == DPow2(1 - FF.p)                                                    \* 2^-52 / 2^-23
+\* the four outputs oa, ob, oab, oka of instances fed a, b, a + b, 2^k a at one and the same position (r = the record
+\* of the four frames, pk = peak input amplitude so far): finite, scaling and superposition carry over
+LinRel(r, pk) ==
+  LET k == cf.k IN
+  /\ FrameOK(r.oa) /\ FrameOK(r.ob) /\ FrameOK(r.oab) /\ FrameOK(r.oka)      \* finite
+  /\ \A c \in 1..cf.ch :
+       LET sup == DAbs(DSub(V(r.oab[c]), DAdd(V(r.oa[c]), V(r.ob[c]))))
+           scl == DAbs(DSub(V(r.oka[c]), DScale2(V(r.oa[c]), k)))
+       IN IF Flt
+            THEN /\ DIsZero(scl)                                         \* power-of-two scaling is exact
+                 /\ DLe(sup, DMul(DMul(DFromInt(4 * Depth), Eps), pk))
+            ELSE /\ DLe(sup, Lsb(2 * Depth))
+                 /\ DLe(scl, DScale2(Lsb(2 * Depth), IF k > 0 THEN k ELSE 0))
 AcceptLin ==
   LET a == Ev.a
-      r == Ev.r.v
       pk == MaxAbs(MaxAbs(MaxAbs(peak, VF(a.va)), VF(a.vb)), VF(a.vab))
       k == cf.k
   IN /\ a.x \in 0..15 /\ Ev.r.k = "val"
      /\ FrameOK(a.va) /\ FrameOK(a.vb) /\ FrameOK(a.vab) /\ FrameOK(a.vka)
-     /\ FrameOK(r.oa) /\ FrameOK(r.ob) /\ FrameOK(r.oab) /\ FrameOK(r.oka)   \* finite
      /\ \A c \in 1..cf.ch :
           \* (binding) the third and fourth instance really were fed a + b and 2^k a
           /\ DEq(V(a.vab[c]), DAdd(V(a.va[c]), V(a.vb[c])))
           /\ DEq(V(a.vka[c]), DScale2(V(a.va[c]), k))
-          /\ LET sup == DAbs(DSub(V(r.oab[c]), DAdd(V(r.oa[c]), V(r.ob[c]))))
-                 scl == DAbs(DSub(V(r.oka[c]), DScale2(V(r.oa[c]), k)))
-             IN IF Flt
-                  THEN /\ DIsZero(scl)                                   \* power-of-two scaling is exact
-                       /\ DLe(sup, DMul(DMul(DFromInt(4 * Depth), Eps), pk))
-                  ELSE /\ DLe(sup, Lsb(2 * Depth))
-                       /\ DLe(scl, DScale2(Lsb(2 * Depth), IF k > 0 THEN k ELSE 0))
+     /\ LinRel(Ev.r.v, pk)
+\* `probe{x}`: the four instances interpolated at x = j/16 without being fed: the same relations at every position of
+\* every buffer content (interpolate is a function of the buffered frames and x)
+AcceptProbe == /\ Ev.a.x \in 0..15 /\ Ev.r.k = "val" /\ LinRel(Ev.r.v, peak)
+\* sinc_clin `next`: the four converters (same ratio) have pulled the same number of source frames -- the schedule
+\* does not depend on the values -- and their frames are related as above (peak = the peak of the sources)
+AcceptCLin ==
+  /\ Ev.r.k = "val" /\ Len(Ev.o.pulls) = 4
+  /\ \A i \in 2..4 : Ev.o.pulls[i] = Ev.o.pulls[1]
+  /\ Ev.o.pulls[1] >= n                                                  \* (n = pulls so far) never decreases
+  /\ LinRel(Ev.r.v, peak)
 
 ---------------------------------------------------------------------------
 Consume == l <= Len(Rec) /\ l' = l + 1
@@ -125,10 +169,13 @@ TReset ==
   /\ IF AcceptReset
        THEN /\ comp' = Ev.comp /\ skip' = FALSE /\ hist' = << >> /\ n' = 0
             /\ cf' = [depth |-> Ev.cfg.depth, fmt |-> Ev.cfg.fmt, ch |-> Ev.cfg.ch,
-                      k |-> IF Ev.comp = "sinc_lin" THEN Ev.cfg.k ELSE 0,
+                      k |-> IF Ev.comp \in {"sinc_lin", "sinc_clin"} THEN Ev.cfg.k ELSE 0,
                       src |-> IF Ev.comp = "sinc_conv" THEN Ev.cfg.src ELSE << >>]
             \* the converter's peak input amplitude is the peak of its source
-            /\ peak' = IF Ev.comp = "sinc_conv" THEN SrcPeak(Ev.cfg) ELSE DZero
+            /\ peak' = IF Ev.comp = "sinc_conv" THEN SrcPeak(Ev.cfg)
+                       ELSE IF Ev.comp = "sinc_clin"
+                         THEN SeqPeak(Ev.cfg.fmt, Ev.cfg.ab, SeqPeak(Ev.cfg.fmt, Ev.cfg.b, SeqPeak(Ev.cfg.fmt, Ev.cfg.a, DZero)))
+                       ELSE DZero
        ELSE Reject /\ skip' = TRUE /\ comp' = "none" /\ cf' = Cf0 /\ hist' = << >> /\ peak' = DZero /\ n' = 0
 
 
@@ -159,13 +206,22 @@ TLin == /\ comp = "sinc_lin" /\ Ev.ev = "step"
              THEN /\ peak' = MaxAbs(MaxAbs(MaxAbs(peak, VF(Ev.a.va)), VF(Ev.a.vb)), VF(Ev.a.vab))
                   /\ n' = n + 1 /\ HeapNote /\ UNCHANGED << comp, cf, hist, skip >>
              ELSE Bad
+TProbe == /\ comp = "sinc_lin" /\ Ev.ev = "probe"
+          /\ IF AcceptProbe
+               THEN n' = n + 1 /\ HeapNote /\ UNCHANGED << comp, cf, hist, peak, skip >>
+               ELSE Bad
+TCLin == /\ comp = "sinc_clin" /\ Ev.ev = "next"
+         /\ IF AcceptCLin
+              THEN n' = Ev.o.pulls[1] /\ HeapNote /\ UNCHANGED << comp, cf, hist, peak, skip >>
+              ELSE Bad
 Known == \/ comp = "sinc" /\ Ev.ev \in {"push", "clear", "interp"}
          \/ comp = "sinc_conv" /\ Ev.ev \in {"next", "tail"}
-         \/ comp = "sinc_lin" /\ Ev.ev = "step"
+         \/ comp = "sinc_lin" /\ Ev.ev \in {"step", "probe"}
+         \/ comp = "sinc_clin" /\ Ev.ev = "next"
 TUnknown == ~Known /\ Bad
 
 TOp == /\ Consume /\ Ev.ev # "reset" /\ ~skip
-       /\ (TPush \/ TClear \/ TInterp \/ TConv \/ TTail \/ TLin \/ TUnknown)
+       /\ (TPush \/ TClear \/ TInterp \/ TConv \/ TTail \/ TLin \/ TProbe \/ TCLin \/ TUnknown)
 TSkip == Consume /\ Ev.ev # "reset" /\ skip /\ UNCHANGED << comp, cf, hist, peak, n, skip >>
 
 TraceInit == l = 1 /\ comp = "none" /\ cf = Cf0 /\ hist = << >> /\ peak = DZero /\ n = 0 /\ skip = TRUE
